@@ -55,6 +55,32 @@ func nearMisses(k string) []string {
 
 func (w *worker) runKey(c *keyCase, raw []byte) {
 	key := cps(c.Key)
+	if w.props["C18"] {
+		// C18: the two quote styles are one spelling freedom -- a name written RAW between single quotes and between
+		// double quotes (no escapes; only possible when it contains neither quote nor backslash) is accepted by both
+		// or rejected by both, and selects the same member
+		if !strings.ContainsAny(key, `'"\`) {
+			doc := map[string]interface{}{key: "TARGET", key + "x": "SIBLING"}
+			outcome := func(q string) string {
+				pr := safeParse("$["+q+key+q+"]", nil)
+				if pr.Panic != nil {
+					return fmt.Sprint("PANIC ", pr.Panic)
+				}
+				if pr.Err != nil {
+					return "rejected: " + parseErrClass(pr.Err)
+				}
+				return safeCall(pr.F, doc).String()
+			}
+			sq, dq := outcome("'"), outcome(`"`)
+			w.count("C18:raw-quote-style-pairs", 1)
+			if sq != dq {
+				w.viol("C18", "spelling-changes-behaviour", "$['"+key+"'] vs $[\""+key+"\"]", snap(doc), fmt.Sprintf("raw name %q: single-quoted gives %s, double-quoted gives %s", key, sq, dq), "quotes", raw)
+			}
+		}
+		if !w.props["C16"] {
+			return
+		}
+	}
 	w.count("cases", 1)
 	w.count(fmt.Sprintf("keylen:%d", len(c.Key)), 1)
 	if c.DotOK {
